@@ -56,7 +56,7 @@ EXPECTED_PROBES = ["kind_sched", "kind_clients", "kind_numba", "two_clients_insi
                    "pickle_of_indexed_object", "cold_cache_first_access_concurrent"]
 
 ENV = {"NUMBA_NUM_THREADS": "16"}      # the sweep needs up to 16 numba threads
-REPO = "/repo/spatialpandas"
+REPO = seams.SP_DIR.rstrip("/")
 WORKLOADS = ("cx", "sjoin", "measures", "intersects_bounds", "pack", "pack_parquet", "read_cx")
 CLIENT_OBJECTS = ("array", "rtree", "frame", "dask")
 REF = {"workers": 1, "strategy": "inorder", "switch_p": 0.0, "stall": False}
